@@ -622,7 +622,7 @@ def run(ck):
     ck.run_cases("fd", fcases, chunk=1)
     # vacuity guards: folds, wall-free ratios, both outcomes of the acceptance rule and zero coordinates must have been exercised
     for needle in ("bounded-folded+", "energy-ratio free+", "energy-folded bounded-folded+", "volume bounded-folded+", "first-proposal=accepted", "first-proposal=rejected", "zero-coordinate", "on-wall"):
-        if not any(needle in t for t in ck.tags):
+        if not ck.fails and not any(needle in t for t in ck.tags):  # (with violations on record the run is not vacuous)
             raise HarnessError(f"vacuous exploration: no case exercised '{needle}'")
     ck.rule = (
         "potential {diag, corr, quartic, sharp(log cosh)} x d {1,2,3} x step (relative to the stiffest frequency) {.01,.1,.3} x n {1,2,5,20} x T {1,2.5} x "
